@@ -21,6 +21,7 @@ pool). The hosts-pool clause holds at full strength since fix d6561d4 (F20).
 -/
 import CaddyModel.C03.Witness
 import CaddyModel.C03.DepsProps
+import CaddyModel.C03.LemmasO
 import CaddyModel.C01.Props
 
 namespace CaddyModel.C03
@@ -95,6 +96,17 @@ theorem stop_then_cleanup (ctx : Ctx) (s : State) :
       unfold stopApp
       split <;> rfl
   exact this _ _
+
+/-- **the order of the Cleanups inside one cancel does not matter.** The cancel function ranges a Go
+    map (`moduleInstances`), so the order in which it calls the modules' Cleanup is arbitrary; the
+    model uses load order. For ANY other order (any permutation of the list) the resulting state is
+    the same in every field — pool references, writers, sockets, … — and the appended events are the
+    same multiset. This is what entitles the correspondence check to compare events as multisets. -/
+theorem cleanup_order_irrelevant (cid : Nat) (wk : List Nat) (live live' : List Live) (s : State)
+    (p : live.Perm live') : Sim (cancel cid [] wk live s) (cancel cid [] wk live' s) := by
+  unfold cancel
+  simp only [List.isEmpty_nil, if_true]
+  exact cleanupAll_perm p (Sim.rfl' s)
 
 /-! ### Start / Stop -/
 
@@ -192,6 +204,9 @@ example : Ev.started 2 0 ∈ (runOps State.init exOps).aevents ∧
 -- the pool after all that is the running config's: keys 0 (twice), 1, 4
 example : (runOps State.init exOps).mpool 0 = 2 ∧ (runOps State.init exOps).mpool 4 = 1 ∧
     (runOps State.init exOps).mpool 2 = 0 ∧ (runOps State.init exOps).mpool 3 = 0 := by decide
+-- cleanup_order_irrelevant: two different orders of three instances holding pool keys
+example : ([⟨⟨0, 0, 0, 1⟩, some 0, false⟩, ⟨⟨1, 0, 0, 2⟩, some 1, false⟩, ⟨⟨2, 0, 3, 1⟩, some 0, true⟩] : List Live).Perm
+    [⟨⟨2, 0, 3, 1⟩, some 0, true⟩, ⟨⟨0, 0, 0, 1⟩, some 0, false⟩, ⟨⟨1, 0, 0, 2⟩, some 1, false⟩] := by decide
 -- failed_provision_cleaned_immediately: hypotheses inhabited
 example : (⟨3, 3⟩ : Mod).isRp = false ∧ ((⟨3, 3⟩ : Mod).fault = 3 ∨ (⟨3, 3⟩ : Mod).fault = 4) := by decide
 -- oncancel_list_always_empty: there is a current context after the history
